@@ -608,7 +608,7 @@ def sweep_one(cfg, konly=None, timeout=240):
             rows.append({'k': int(p[1]), 'kinds': kinds, 'verdict': verdict, 'yields': rest})
         elif p[0] == 'X' and len(p) == 3:
             rows.append({'k': int(p[1]), 'kinds': ['BLOCKED' if p[2].strip() == 'signal 14' else 'CRASH'], 'yields': '',
-                         'verdict': 'the consumer blocked with the delivery unreported (killed by the 5 s alarm)' if p[2].strip() == 'signal 14'
+                         'verdict': 'the consumer blocked with the delivery unreported (killed by the 3 s alarm)' if p[2].strip() == 'signal 14'
                          else 'the process died: ' + p[2]})
         elif p[0] == 'P':
             rows.append({'k': int(p[1]) if len(p) > 1 and p[1].isdigit() else 0, 'kinds': ['CRASH'], 'verdict': 'panic: ' + l, 'yields': ''})
